@@ -354,6 +354,8 @@ class TimePointParser(object):
                 info.pop(property_)
                 translator = data.PARSE_PROPERTY_TRANSLATORS[property_]
                 info.update(translator(value))
+                # The translated properties carry their own signed time zone.
+                info.pop("time_zone_sign", None)
         date_info_keys = []
         for item in parser_spec.get_date_translate_info(
                 self.num_expanded_year_digits):
